@@ -280,7 +280,8 @@ func runC16(t *testing.T, c explore.Case) (res explore.Result, enabled []string)
 			}
 		}
 		sort.Strings(enabled)
-		if len(open) > 0 {
+		if len(open) > 0 && (len(scn.Beh) <= 4 || len(enabled) == 0) {
+			// networks of more than 4 peers: every order of the answers, time-outs only for silent peers
 			enabled = append(enabled, "T")
 		}
 		finished := false
@@ -351,6 +352,7 @@ func runC16(t *testing.T, c explore.Case) (res explore.Result, enabled []string)
 			expectImplied = 1
 		}
 		tokenOf := map[string]*string{}
+		tokDist := map[string]string{}
 		for _, d := range responses {
 			if scn.Sec && d.p.ClaimID != nil && !refSecure(*d.p.ClaimID, d.p.Addr.IP) {
 				// answered under an ID that is not valid for its address: never a member of the
@@ -358,6 +360,32 @@ func runC16(t *testing.T, c explore.Case) (res explore.Result, enabled []string)
 				continue
 			}
 			tokenOf[d.p.Addr.String()] = d.p.Token
+			if d.p.Token != nil {
+				rid := d.p.ID
+				if d.p.ClaimID != nil {
+					rid = *d.p.ClaimID
+				}
+				var dist [20]byte
+				for i := range dist {
+					dist[i] = rid[i] ^ ihA[i]
+				}
+				tokDist[d.p.Addr.String()] = string(dist[:])
+			}
+		}
+		// The final closest set, by reference: the K=8 token responders nearest (XOR, by the ID each
+		// answered under) to the infohash. Only decidable from the delivery log when the traversal
+		// ran to its own stall (no Close / StopTraversing); with at most K token responders every one
+		// of them is a member.
+		notMember := map[string]bool{}
+		if scn.Stop == "" && len(tokDist) > 8 {
+			var order []string
+			for a := range tokDist {
+				order = append(order, a)
+			}
+			sort.Slice(order, func(i, j int) bool { return tokDist[order[i]] < tokDist[order[j]] })
+			for _, a := range order[8:] {
+				notMember[a] = true
+			}
 		}
 		perDest := map[string]int{}
 		for _, q := range net.allQ {
@@ -373,6 +401,10 @@ func runC16(t *testing.T, c explore.Case) (res explore.Result, enabled []string)
 			tok, responded := tokenOf[dst]
 			if !responded || tok == nil {
 				res.Viol = fmt.Sprintf("announce-outside-closest: announce_peer sent to %s, which did not answer get_peers with a token in this traversal%s", dst, map[bool]string{true: " under a node ID that is valid for its address (security is enforced)", false: ""}[scn.Sec])
+				return
+			}
+			if notMember[dst] {
+				res.Viol = fmt.Sprintf("announce-outside-closest: announce_peer sent to %s, which answered with a token but is not among the 8 token responders closest to the infohash (%d answered with a token)", dst, len(tokDist))
 				return
 			}
 			if perDest[dst] > 1 {
@@ -435,7 +467,7 @@ func runC16(t *testing.T, c explore.Case) (res explore.Result, enabled []string)
 			}
 			if announcing && !closedAnn {
 				for dst, tok := range tokenOf {
-					if tok != nil && perDest[dst] != 1 {
+					if tok != nil && !notMember[dst] && perDest[dst] != 1 {
 						res.Viol = fmt.Sprintf("announce-missing: %s answered get_peers with a token and belongs to the closest set, but got %d announce_peer", dst, perDest[dst])
 						return
 					}
@@ -511,6 +543,12 @@ func c16Scenarios(thorough bool) (out []c16Scn) {
 				}
 			}
 		}
+	}
+	// more token responders than K: the closest set overflows, far responders answer after it is full
+	out = append(out, c16Scn{Beh: "nnnnnnnnnn", Opt: "port", Consumer: "all", Starts: 1})
+	if thorough {
+		out = append(out, c16Scn{Beh: "nnnnnnnnnn", Opt: "implied", Consumer: "all", Starts: 2},
+			c16Scn{Beh: "nvnnxnnnnnn", Opt: "port", Consumer: "all", Starts: 1})
 	}
 	// BEP 42 enforced (NoSecurity=false): responders with valid IDs, responders answering under an
 	// ID that is not valid for their address ('o'), and tokenless ones
